@@ -476,7 +476,7 @@ func runC14Hist(r *fw.Run, h *c14Hist) []string {
 	if maxClose > serveRet && serveRet > 0 {
 		lr.fail("returned-before-drain", "the serving call returned (seq %d) before an accepted connection was released (seq %d)", serveRet, maxClose)
 	}
-	if a := svc.VerifActive(); a != 0 {
+	if a := svc.VerifActive(); a > 0 {
 		lr.fail("active-count", "after serving ended the active-connection count is %d, expected 0", a)
 	}
 	if len(lr.viol) > 0 {
